@@ -20,6 +20,9 @@ func c06Unit(c *RunCtx, unit int) {
 	if r.Intn(3) == 0 {
 		mods = append(mods, "otp")
 	}
+	if r.Intn(2) == 0 {
+		mods = append(mods, "lock") // its login hooks save the user of a recover-and-login a second time
+	}
 	cfg := world.Cfg{Modules: shuffled(r, mods), Mount: pickS(r, "/auth", "/a/b"), JSON: r.Intn(3) == 0, RecoverLogin: r.Intn(2) == 0,
 		Err500: r.Intn(2) == 0, LogoutMethod: "DELETE", Secondary: r.Intn(4) == 0}
 	s, err := sim.New(cfg, r, sim.SeedOpt{Accounts: 3, Browsers: 5})
